@@ -529,10 +529,91 @@ def r14b(ctx):
     ctx.extra["make_xpath_query_table"] = {k: v for k, v in table.items()}
 
 
+# ------------------------------------------------------------------ R14d
+LOSSY = {"split", "rsplit", "strip", "lstrip", "rstrip", "lower", "upper", "casefold", "title", "capitalize", "swapcase", "replace", "translate",
+         "expandtabs", "removeprefix", "removesuffix", "partition", "rpartition", "splitlines", "sub", "subn", "normalize", "center", "ljust", "rjust", "zfill"}
+
+_FIXTURE_D = '''
+def compile_bad(path):
+    return XPath(" ".join(path.split()))
+def lookup_bad(self, name):
+    key = name.strip()
+    query = f"descendant::text:bookmark[@text:name={xpath_string_literal(key)}]"
+    return self.get_element(query)
+def lookup_ok(self, name):
+    query = f"descendant::text:bookmark[@text:name={xpath_string_literal(name)}]"
+    return self.get_element(query)
+'''
+
+
+def _rewrites(node, sink_exprs, lf, q):
+    """Lossy string transformations among the expressions a sink argument is built from (backward def-use closure, helper arguments included)."""
+    seen, work, out = set(), list(sink_exprs), []
+    while work:
+        e = work.pop()
+        if id(e) in seen:
+            continue
+        seen.add(id(e))
+        names = set(str_sources(e, q))
+        for c in ast.walk(e):
+            if isinstance(c, ast.Call):
+                if isinstance(c.func, ast.Attribute) and c.func.attr in LOSSY and not isinstance(c.func.value, ast.Constant):
+                    out.append(c)
+                # what is handed to a quoting helper / query builder is part of the query too
+                for a in list(c.args) + [k.value for k in c.keywords]:
+                    names |= {x.id for x in ast.walk(a) if isinstance(x, ast.Name)} if call_name(c) in q or "literal" in (call_name(c) or "") else set()
+        for n in names:
+            work.extend(lf.defs.get(n, []))
+    return out
+
+
+def r14d(ctx):
+    """Neither the identifier nor the finished query is rewritten on its way to XPath.
+
+    R14a/R14c make the literal in the query denote exactly the value it is given.  That is
+    only worth something if the value given is the caller's identifier and the query text
+    that reaches lxml is the text that was built: a strip(), lower(), white-space
+    normalisation or replace() anywhere on that path makes names that differ only in what
+    the transformation erases collide (or not be found).  Rule: no lossy str method is
+    applied to anything a sink argument is built from.  Expected count on a sound tree:
+    0 — a fixture with two violating and one clean function is evaluated on every run.
+    """
+    repo = ctx.repo
+    ctx.rule("R14d", "nothing a query is built from, and no finished query, passes through a lossy string transformation before the XPath sink", floor=100)
+    flow = Flow(repo)
+    q = frozenset(flow.query_returning)
+    for f in flow.funcs:
+        exprs = flow.sink_arg_exprs(f)
+        if not exprs:
+            continue
+        # lookups hand identifiers to the query builder as keywords (text_name=…, forwarded through **kwargs): every keyword of a sink call is query material
+        exprs = list(exprs)
+        for n in flow.calls[id(f.node)]:
+            if call_name(n) in flow.sink_params:
+                exprs += [k.value for k in n.keywords if k.arg]
+        bad = _rewrites(f.node, exprs, flow.lf(f), q)
+        ctx.instance("R14d", f"{f.file}:{f.ident}", f"{len(exprs)} sink argument(s): built without lossy transformation", ok=not bad, nontrivial=bool(bad), line=f.node.lineno)
+        for c in bad[:2]:
+            ctx.report("R14d", f, c, f"{norm(c, 60)} on the way to an XPath sink",
+                       f"{f.ident} rewrites a string that becomes (part of) an XPath query with `.{c.func.attr}()`: identifiers that differ only in what the "
+                       f"transformation erases are looked up as one, while the stored attribute keeps the original spelling")
+    # fixture
+    tree = ast.parse(_FIXTURE_D)
+    got = {}
+    for fn in tree.body:
+        class _F:  # minimal FuncInfo stand-in for LocalFlow
+            node = fn
+        cs = [n for n in ast.walk(fn) if isinstance(n, ast.Call) and call_name(n) in BASE_SINKS]
+        got[fn.name] = len(_rewrites(fn, [c.args[0] for c in cs], LocalFlow(_F, q), q))
+    if got != {"compile_bad": 1, "lookup_bad": 1, "lookup_ok": 0}:
+        raise AnalysisError(f"R14d fixture: rewrite detector broken: {got}")
+
+
 def run(ctx):
     r14a(ctx)
     r14c(ctx)
     r14b(ctx)
+    r14d(ctx)
 
 
 from ..selftest import Seed, unparse_seed  # noqa: E402
@@ -540,6 +621,14 @@ from ..selftest import Seed, unparse_seed  # noqa: E402
 _XQ = "src/odfdo/utils/xpath_query.py"
 _EL = "src/odfdo/element.py"
 SEEDS = [
+    Seed("xpath_compile normalises the white space of the whole query", "fault", _EL,
+         "    return XPath(path, namespaces=ODF_NAMESPACES, regexp=False)", "    return XPath(\" \".join(path.split()), namespaces=ODF_NAMESPACES, regexp=False)", "R14d"),
+    Seed("get_bookmark trims the name it looks up", "fault", _EL,
+         '            "descendant::text:bookmark", position, text_name=name', '            "descendant::text:bookmark", position, text_name=name.strip()', "R14d"),
+    Seed("xpath_compile lower-cases through a local", "fault", _EL,
+         "    return XPath(path, namespaces=ODF_NAMESPACES, regexp=False)", "    text = path.casefold()\n    return XPath(text, namespaces=ODF_NAMESPACES, regexp=False)", "R14d"),
+    Seed("xpath_compile binds the query to a local first", "neutral", _EL,
+         "    return XPath(path, namespaces=ODF_NAMESPACES, regexp=False)", "    text = str(path)\n    return XPath(text, namespaces=ODF_NAMESPACES, regexp=False)"),
     Seed("make_xpath_query pastes value between quotes again", "fault", _XQ,
          'query.append(f"[@{qname}={xpath_string_literal(value)}]")', "query.append(f'[@{qname}=\"{value}\"]')", "R14a"),
     Seed("make_xpath_query interpolates the raw value after =", "fault", _XQ,
